@@ -5,7 +5,7 @@ import ast
 import builtins as _bi
 
 from ..callgraph import CallGraph
-from ..loader import AnalysisError, dotted, norm, walk_no_defs
+from ..loader import const_eval, AnalysisError, dotted, norm, walk_no_defs
 from ..minieval import MiniEval, Raised, Unsupported
 from ..report import RuleReport
 from ..rules.common import FlagSem, run_flags
@@ -89,10 +89,17 @@ def _module_env(a, modname: str) -> dict:
     env: dict = {}
     for name, val in mod.assigns.items():
         try:
-            env[name] = ast.literal_eval(val)
-        except Exception:  # noqa: BLE001
+            env[name] = const_eval(val)
+        except ValueError:
             continue
     return env
+
+
+def _add_module_functions(a, ev, modname: str, skip=()) -> None:
+    """module-level helper functions of the interpreted function become interpretable too (not the ones the rule abstracts)"""
+    for name, f in a.p.module(modname).functions.items():
+        if name not in ev.calls and name not in skip and not f.decorators:
+            ev.globals.setdefault(name, ('<func>', f.node, {}))
 
 
 def allowed_builtins(a) -> dict[str, object]:
@@ -318,6 +325,7 @@ def _interp_gate(a, expression: str, ctx_names: list[str]):
         return NotImplemented
 
     ev = _Eval(env, calls=calls, methods=methods)
+    _add_module_functions(a, ev, SAFEEVAL, skip={fn.name})
     items = tuple((n, 1) for n in ctx_names)
     try:
         ev.call_function(fn.node, [expression, items])
@@ -369,6 +377,7 @@ def r3_gate(a, tier):
             'id': id,
         })
         ev.globals['scan_for_exceptions'] = ('<func>', scan.node, {})
+        _add_module_functions(a, ev, SAFEEVAL, skip={cfn.name})
         try:
             ev.call_function(cfn.node, [ctx])
         except Raised as r:
